@@ -27,6 +27,13 @@ MEMPOOL_HARNESSES = [
      'obligations': ['REAL MemPool::cleanUp on a pool holding 1..2 connected ATVs whose VBK block fell behind the old-blocks window: no freed memory is touched (engine use-after-free check), stale payloads are forgotten'],
      'rungs': {'quick': [{'bound': '1..2 connected ATVs on a VBK block 3 blocks behind the VBK tip, old-blocks window 1 (pool state constructed directly: what a successful submit<ATV> leaves)', 'timeout': 200}], 'thorough': [{'bound': 'as quick', 'timeout': 400}]}},
 ]
+FIN_HARNESSES = [
+    {'name': 'h_realfin', 'src': 'real/h_realfin.cpp', 'entry': 'h_realfin', 'repo_srcs': srcsets_real.REAL, 'covers': [1, 2, 3], 'jobs': 8,
+     'obligations': ['REAL AltBlockTree: an instance that finalizes (ALT -> VBK -> BTC cascade, blocks deallocated) gives the same validity result, activation result and tip for the next block as a twin that never finalizes',
+                     'REAL AltBlockTree: a payload id first seen in a block that has since been finalized and deallocated still makes a later block carrying it invalid; finalized blocks stay on the active chain'],
+     'rungs': {'quick': [{'defines': ['LCH=6'], 'bound': 'linear ALT chain of 6 blocks, VBK context (1..2 blocks) in block 1 or 2, next block re-uses VBK block 2/3 or nothing, maxReorg 1..2, preserve 0..2', 'timeout': 250}],
+               'thorough': [{'defines': ['LCH=8'], 'bound': 'linear ALT chain of 8 blocks, otherwise as quick', 'timeout': 1500}]}},
+]
 EXPLANATION = 'F-REAL: the real three-tree system runs in the engine with hand-made payloads (preset header hashes, real payload ids); the scenario space is explored exhaustively by solver-driven case splits and every verdict is compared with an independent integer specification.'
 ASSUMPTIONS = ['header hashes of VBK/BTC blocks are preset (no progpow/SHA-256 for headers); payload ids use the real SHA-256 (executed concretely)', 'signatures are arbitrary bytes: stateless checks are not part of tree operations',
                'scenario parameters are case-split (concrete per path): this harness is exhaustive over its finite scenario space, not over all payload contents', 'VTBs / BTC context, mempool and finalization are not exercised by this harness']
